@@ -627,8 +627,7 @@ Definition okb (c : case) : bool :=
       && Bool.eqb (bytes_eqb vid wid) (view_eqb v w)
   | CViewProto _ read =>
       match read with
-      | Ok v => targets_oddb (v_local_bookmarks v) && targets_oddb (v_local_tags v)
-                && targets_oddb (v_git_refs v) && targets_oddb (v_git_heads v)
+      | Ok v => wf_viewb v           (* whatever is read is well-formed (C16_read_is_wf) *)
       | _ => true
       end
   | COp o w _ read _ oid oid2 wid _ =>
@@ -714,10 +713,7 @@ Definition case_ok (c : case) : Prop :=
   | CView v w via _ read _ vid vid2 wid _ =>
       (via = true -> wf_view v) /\ (wf_view v -> read = Ok v) /\ vid = vid2
       /\ (vid = wid <-> v = w)
-  | CViewProto _ read =>
-      forall v, read = Ok v ->
-        targets_oddb (v_local_bookmarks v) = true /\ targets_oddb (v_local_tags v) = true
-        /\ targets_oddb (v_git_refs v) = true /\ targets_oddb (v_git_heads v) = true
+  | CViewProto _ read => forall v, read = Ok v -> wf_view v
   | COp o w _ read _ oid oid2 wid _ =>
       (wf_op o -> read = Ok o) /\ oid = oid2 /\ (oid = wid <-> o = w)
   | COpProto _ _ => True
